@@ -9,7 +9,7 @@ V=$(cd "$(dirname "$0")" && pwd)
 REPO=${VERIF_REPO:-/repo}; export VERIF_REPO="$REPO"
 n=64
 if [ "${1:-}" = "-n" ]; then n=$2; shift 2; fi
-ids=${*:-C02 C06 C07 C08 C09 C10 C11 C12 C19}
+ids=${*:-C02 C06 C07 C08 C09 C10 C11 C12 C19 C19conc}   # C19conc: the C19 engine of the schedule-controlled build (concurrent-consumers world)
 S=$(mktemp -d "${TMPDIR:-/var/tmp}/verif-selftest.XXXXXX") || exit 2
 trap 'rm -rf "$S"' EXIT
 if grep -n 'sync\.Map' "$V"/sim/*.go; then echo "selftest: sync.Map in the harness (iteration order is random)"; exit 2; fi
@@ -22,11 +22,13 @@ sed "s#=> /repo#=> $S/repo#" "$V/sim/go.mod" >"$S/conc.mod"; cp "$V/sim/go.sum" 
 echo "selftest: browser / permits / cache / flatten models agree with their hand-written tables"
 rc=0
 for id in $ids; do
-  bin="$S/plain"; [ "$id" = C07 ] && bin="$S/conc"
+  bin="$S/plain"; eng=$id
+  [ "$id" = C07 ] && bin="$S/conc"
+  [ "$id" = C19conc ] && { bin="$S/conc"; eng=C19; }
   i=0
   for gmp in 1 4 16 1 4 16; do
     i=$((i+1))
-    GOMAXPROCS=$gmp "$bin" selftest "$id" -seeds "$n" >"$S/$id.$i.out" 2>&1 &
+    GOMAXPROCS=$gmp "$bin" selftest "$eng" -seeds "$n" >"$S/$id.$i.out" 2>&1 &
   done
   wait
   for i in 2 3 4 5 6; do
